@@ -258,7 +258,10 @@ func unmarshalStatus(id uint32, data []byte) error {
 	if sid != id {
 		return &unexpectedIDErr{id, sid}
 	}
-	code, data := unmarshalUint32(data)
+	code, data, err := unmarshalUint32Safe(data)
+	if err != nil {
+		return err
+	}
 	msg, data, _ := unmarshalStringSafe(data)
 	lang, _, _ := unmarshalStringSafe(data)
 	return &StatusError{
